@@ -29,8 +29,14 @@ var c16Extra = []byte{'#', '*', '=', 0xc3, 0xa9, 0, '-', '~', '{', '\r', '\v', '
 // drawInput draws a tokenizer input of length 0..maxLen. It never produces $ or
 // ` (no meaning to Split; see DESIGN.md 4.4).
 func drawInput(ch chooser.Chooser, maxLen int) string {
-	if ch.Draw(32, "long?") == 31 {
+	switch ch.Draw(32, "long?") {
+	case 31:
 		return drawLongInput(ch)
+	case 30, 29, 28, 27:
+		// Medium: tokens of tens to a couple of hundred bytes, so that escapes
+		// and quotes land at every offset around small-buffer thresholds (64
+		// bytes is bytes.Buffer's, and a popular choice for inline buffers).
+		return drawShortInput(ch, 40+ch.Draw(200, "medlen"))
 	}
 	return drawShortInput(ch, maxLen)
 }
@@ -128,12 +134,14 @@ type c16Session struct {
 	errVal    error
 	PoolOK    bool   `json:"split_flag,omitempty"`
 	Extra     []bool `json:"next_after_end"`
-	Panic     string `json:"panic,omitempty"`
-	restTaken bool
-	usedPlan  []readSeg
-	planLen   int
-	dataLen   int
-	reused    bool
+	// EndComplete is Complete() right after Next first returned false.
+	EndComplete bool   `json:"complete_at_end"`
+	Panic       string `json:"panic,omitempty"`
+	restTaken   bool
+	usedPlan    []readSeg
+	planLen     int
+	dataLen     int
+	reused      bool
 }
 
 type c16Config struct {
@@ -248,6 +256,7 @@ func execSession(sc *shell.Scanner, prev *simReader, s *c16Session) (*shell.Scan
 		if s.errVal != nil {
 			s.Err = s.errVal.Error()
 		}
+		s.EndComplete = sc.Complete()
 	}
 	// Next must stay false for ever, whatever the reader would still deliver.
 	for i := 0; i < 2; i++ {
@@ -350,6 +359,17 @@ func checkSession(s *c16Session, st *Stats) *Violation {
 		}
 		if s.errVal == errInjected {
 			st.Inc("probe:scanner_reported_injected_error", 1)
+			// The scanner has seen exactly input[:ErrAt]: the word it was in
+			// when the stream broke is complete or not by the same rules.
+			if s.Mode == smNext || s.Mode == smEach {
+				cut := refTokenize(s.Input[:f.ErrAt])
+				if s.EndComplete != cut.Complete {
+					return &Violation{"complete-mismatch", fmt.Sprintf("%s: after the read error Complete()=%v, but the input up to the error (%q) leaves the scanner %s", desc, s.EndComplete, s.Input[:f.ErrAt], map[bool]string{true: "between words or in a plain word (complete)", false: "inside a quotation or after a backslash (incomplete)"}[cut.Complete])}
+				}
+				if !cut.Complete {
+					st.Inc("probe:error_inside_quotation_or_escape", 1)
+				}
+			}
 		}
 		return nil
 	}
